@@ -70,6 +70,10 @@ pub(crate) struct SessionEngine<S: Session> {
     pub outgoing: mpsc::Sender<SessionFrame>,
 
     pub outgoing_link_frames: mpsc::Receiver<LinkFrame>,
+
+    /// The largest frame body the connection writes, asked from the connection
+    /// when the first transfer goes out
+    pub max_frame_body_size: Option<usize>,
 }
 
 impl<S> SessionEngine<S>
@@ -92,6 +96,7 @@ where
             incoming,
             outgoing,
             outgoing_link_frames,
+            max_frame_body_size: None,
         };
 
         // send a begin
@@ -401,6 +406,28 @@ where
         }
     }
 
+    /// The frame body limit of the connection's encoder (asked once)
+    async fn max_frame_body_size(&mut self) -> Result<usize, SessionInnerError> {
+        if let Some(size) = self.max_frame_body_size {
+            return Ok(size);
+        }
+        let (tx, rx) = oneshot::channel();
+        let stopped = |engine: &Self| {
+            SessionInnerError::ConnectionStopped(connection_stop_reason_or_closed(
+                engine.session.connection_stop_reason(),
+            ))
+        };
+        self.conn_control
+            .send(ConnectionControl::GetMaxFrameSize(tx))
+            .await
+            .map_err(|_| stopped(self))?;
+        // what the connection reports is the limit of its length-delimited writer
+        // (max-frame-size minus the size field); the frame header takes 4 more bytes
+        let size = rx.await.map_err(|_| stopped(self))?.saturating_sub(4);
+        self.max_frame_body_size = Some(size);
+        Ok(size)
+    }
+
     #[inline]
     async fn on_outgoing_link_frames(
         &mut self,
@@ -426,9 +453,36 @@ where
                 input_handle,
                 performative,
                 payload,
-            } => self
-                .session
-                .on_outgoing_transfer(input_handle, performative, payload)?,
+            } => {
+                // The peer's session counts transfer frames: a transfer that will not
+                // fit one frame is cut here, before the transfers are numbered, and
+                // not by the frame encoder behind the session's back
+                let max_frame_body_size = self.max_frame_body_size().await?;
+                let mut pieces =
+                    crate::frames::amqp::split_transfer(performative, payload, max_frame_body_size)
+                        .map_err(|_| SessionInnerError::IllegalState)?;
+                let last = pieces.pop();
+                for (performative, payload) in pieces {
+                    if let Some(outgoing_item) = self.session.on_outgoing_transfer(
+                        input_handle.clone(),
+                        performative,
+                        payload,
+                    )? {
+                        send_outgoing_item(
+                            &self.outgoing,
+                            outgoing_item,
+                            self.session.connection_stop_reason(),
+                        )
+                        .await?;
+                    }
+                }
+                match last {
+                    Some((performative, payload)) => self
+                        .session
+                        .on_outgoing_transfer(input_handle, performative, payload)?,
+                    None => None,
+                }
+            }
             LinkFrame::Disposition(disposition) => self
                 .session
                 .on_outgoing_disposition(disposition)
